@@ -5,6 +5,8 @@ import vlib
 from gen import opgen
 
 FLOAT_RE = re.compile(r'^\(f ')
+CMP_INSTRS = ('LessThan', 'LessThanOrEqual', 'GreaterThan', 'GreaterThanOrEqual')
+SLICE_RE = re.compile(r'^\(sl \((cl|bl)[ \d]*\) \(r \(i (-?\d+)\) \(i (-?\d+)\)\)\)$')
 
 # Documented limits of the value-level model: such cases are still executed on the implementation (no panic,
 # no hang), but implementation and model are not compared on them.
@@ -12,6 +14,20 @@ def skip_reason(c):
     instr, store, a, b = c[3], c[2], c[5], c[6]
     if instr == 'ApplyType':
         return cast_skip_reason(store, a, b)
+    if instr in CMP_INSTRS and a.startswith('(sl ') and b.startswith('(sl '):
+        # the Slice/Slice arm of perform_comparison IS modelled (Abs/Ops.lean compareSlices): text against text and bytes against
+        # bytes from non-negative integer starts whose extent does not overflow; every other pair of slices is "not ordered"
+        ma, mb = SLICE_RE.match(a), SLICE_RE.match(b)
+        if ma and mb and ma.group(1) == mb.group(1):
+            for m in (ma, mb):
+                s_, e_ = int(m.group(2)), int(m.group(3))
+                if s_ < 0 or not (-2**31 <= e_ - s_ <= 2**31 - 1) or not (-2**31 <= e_ - s_ + 1 <= 2**31 - 1):
+                    return 'slice with a negative start or an overflowing extent: the item getters of the two data implementations fail each in its own way'
+            return None
+        ka, kb = a.split(' ')[1].strip('()'), b.split(' ')[1].strip('()')
+        if ka != kb or ka not in ('cl', 'bl'):
+            return None
+        return 'slice of text / bytes with a non-integer range'
     if '(sl ' in a or '(sl ' in b:
         return 'slices are not modelled at value level'
     if instr in ('Access', 'Apply') and FLOAT_RE.match(b):
